@@ -18,6 +18,7 @@ func AllRules() []*Rule {
 	rs = append(rs, termRules()...)
 	rs = append(rs, freshRules()...)
 	rs = append(rs, autoidxRule())
+	rs = append(rs, identRule())
 	return rs
 }
 
